@@ -4,6 +4,7 @@ package verifharness
 
 import (
 	"encoding/binary"
+	"strconv"
 	"strings"
 	"testing"
 
@@ -308,6 +309,32 @@ func TestC17(t *testing.T) {
 			}
 			do("bound", &Ty{Kind: "bitvec", N: k}, gb.val(&Ty{Kind: "bitvec", N: k}))
 			do("bound", &Ty{Kind: "vec", Elem: &Ty{Kind: "u", N: 2}, N: k}, gb.val(&Ty{Kind: "vec", Elem: &Ty{Kind: "u", N: 2}, N: k}))
+		}
+		// the end is reported for good: hundreds of calls past it (8-bit cursors wrap around)
+		{
+			gx := &gen{r: newRng(1718), maxElem: 40}
+			for _, ty := range []*Ty{
+				{Kind: "bitlist", N: 600}, {Kind: "bitvec", N: 300}, {Kind: "list", Elem: &Ty{Kind: "u", N: 1}, N: 100},
+				{Kind: "vec", Elem: &Ty{Kind: "u", N: 8}, N: 9}, {Kind: "list", Elem: &Ty{Kind: "root"}, N: 8},
+				{Kind: "vec", Elem: &Ty{Kind: "list", Elem: &Ty{Kind: "u", N: 1}, N: 3}, N: 3},
+				{Kind: "cont", Fields: []*Ty{{Kind: "u", N: 8}, {Kind: "root"}, {Kind: "bool"}}},
+			} {
+				for _, extra := range []int{260, 520} {
+					v := gx.val(ty)
+					e := extra
+					obs := guard(func() string {
+						vw, err := buildView(ty, v)
+						if err != nil {
+							return "ro=ERR ix=ERR get=ERR"
+						}
+						return iterObsN(ty, vw, h, e)
+					})
+					if obs == "PANIC" {
+						obs = "ro=PANIC ix=PANIC get=PANIC"
+					}
+					out.emit("pastend", "c17x", []string{ty.Sexp(), v.Sexp(), strconv.Itoa(e)}, obs)
+				}
+			}
 		}
 		// malformed backings: one node replaced by a pair of two copies of itself (a pair where
 		// the type expects a chunk) or by its summary root (data missing): the three access
